@@ -84,6 +84,8 @@ enum Sig {
     Absent,
     Valid,
     Invalid,
+    /// external signers only: the verifier contract fails instead of returning false
+    Trap,
 }
 
 struct Acc {
@@ -236,6 +238,7 @@ impl Acc {
                         entries.push(auth::entry(e, &auth::sc(&i.d), &auth::invocation(e, &i.acc, "__check_auth", &args)));
                     }
                 }
+                (_, Sig::Trap) => map.set(i.signer(k), Bytes::from_array(e, b"trap")),
                 (_, v) => map.set(i.signer(k), Bytes::from_array(e, if v == Sig::Valid { b"ok" } else { b"no" })),
             }
         }
@@ -277,7 +280,7 @@ impl Acc {
     }
 
     fn expected(rules: &[Rule], ctxs: &[Ctx], sigs: [Sig; 4], ledger: u32, can: [bool; 2], refuse: [bool; 2]) -> (bool, Vec<(usize, u32, usize, BTreeSet<usize>)>, String) {
-        if sigs.iter().any(|s| *s == Sig::Invalid) {
+        if sigs.iter().any(|s| *s == Sig::Invalid || *s == Sig::Trap) {
             return (false, vec![], "a supplied signature does not verify".into());
         }
         let supplied: BTreeSet<usize> = (0..4).filter(|k| sigs[*k] == Sig::Valid).collect();
@@ -340,6 +343,14 @@ impl Acc {
                         sig_maps.push([a, b, d, u]);
                     }
                 }
+            }
+        }
+        // a verifier that fails instead of answering false: alone, and next to otherwise sufficient signers
+        for rest in [[Sig::Absent; 4], [Sig::Absent, Sig::Valid, Sig::Valid, Sig::Absent], [Sig::Valid, Sig::Valid, Sig::Valid, Sig::Absent]] {
+            for k in [S1, S2, U] {
+                let mut m = rest;
+                m[k] = Sig::Trap;
+                sig_maps.push(m);
             }
         }
         let ledgers = [i.base, i.base + 2];
